@@ -341,7 +341,7 @@ ITEMS = [
     dict(raw='impl<R> Chunker<R>\nwhere\n\tR: Read,\n{' + CHUNKER_VIEW),
     dict(src=SRC, kind='fn', name='new', within_impl=CKI, contract=dict(ret='c', spec=CHUNKER_NEW_SPEC)),
     dict(src=SRC, kind='fn', name='next', within_impl=CKN,
-         contract=dict(ret='r', spec=NEXT_SPEC, attrs=['#[verifier::exec_allows_no_decreases_clause]'],  # termination NOT proved: it rests on libyaml reaching a document boundary
+         contract=dict(ret='r', spec=NEXT_SPEC, attrs=['#[verifier::exec_allows_no_decreases_clause]', '#[verifier::rlimit(60)]'],  # termination NOT proved: it rests on libyaml reaching a document boundary
                        rewrites=[dict(find=r'\.map\(Ok\)', to='.map(|v: Document| -> (r: io::Result<Document>) ensures r == Ok::<Document, io::Error>(v) { Ok(v) })'), dict(find=r'\bSelf::Item\b', to_assoc='Item'),
                                  dict(find=r'\bio::Error::new\b', to='io_error_new')],
                        prologue='proof { lemma_docs_len(p_hist(&self.parser)); }',
